@@ -274,16 +274,79 @@ def do_job(job):
     return acc
 
 
+def do_cost_grid(args):
+    """every cost parameter matters at realistic sizes too: yescrypt-family settings on both sides of the pre-hash
+    condition (N/p >= 0x100 and N/p*r >= 0x20000, where a second code path runs) and scrypt: all combinations of a
+    small parameter grid must give pairwise different digests for the same phrase and salt"""
+    m, seed = args
+    acc = common.Acc()
+    w = rt.vw("opt")
+    rng = rt.rng_for(seed, PID, "grid", m)
+    phrase = gen.gen_phrase(rng, 20, "ascii")
+    combos = []
+    if m == "scrypt":
+        sl = gen.rsalt(rng, 16)
+        for nl in (10, 11):
+            for rr in (8, 9):
+                for p in (1, 2):
+                    combos.append(((nl, rr, p), b"$7$" + gen.A64[nl:nl + 1] + gen.enc64_le(rr, 5) + gen.enc64_le(p, 5) + sl))
+    else:
+        salt = gen.yes_encode64(bytes(rng.getrandbits(8) for _ in range(16)))
+        for fl in (b"j", b"/"):
+            for nl, rr in ((12, 32), (11, 32), (13, 32), (14, 8)):
+                for p in (1, 2):
+                    for t in (0, 1, 2, 3):
+                        have = (1 if p > 1 else 0) | (2 if t else 0)
+                        params = fl + gen.yes_enc_uint(nl, 1) + gen.yes_enc_uint(rr, 1)
+                        if have:
+                            params += gen.yes_enc_uint(have, 1)
+                            if p > 1:
+                                params += gen.yes_enc_uint(p, 2)
+                            if t:
+                                params += gen.yes_enc_uint(t, 1)
+                        combos.append(((fl, nl, rr, p, t), gen.TAG[m] + params + b"$" + salt))
+    lines = [rt.crypt_line("crypt_rn", 0, phrase, s) for _, s in combos]
+    rows = rt.run_resilient(w, [rt.obj_line(0), "mapcap %d" % (256 << 20)], lines, timeout=600)
+    seen = {}
+    for (par, s), r in zip(combos, rows):
+        if not isinstance(r, dict):
+            acc.inconc("cost grid: no answer for %r" % s)
+            continue
+        h = rt.hash_of(r)
+        if h is None:
+            acc.count("grid_refused")
+            continue
+        sp = gen.split_hash(m, h)
+        if not sp:
+            continue
+        acc.count("evaluations")
+        acc.count("cost_grid_hashes")
+        acc.cls((m, "cost-grid", par[0] if m != "scrypt" else "7"))
+        dig = sp[1]
+        if dig in seen:
+            acc.violation("%s/cost-insensitive/%s" % (PID, m),
+                          "settings %r and %r (different cost parameters %r / %r, same salt, same phrase) give the same "
+                          "digest %r" % (seen[dig][1], s, seen[dig][0], par, dig),
+                          rt.replay_obj("opt", [rt.obj_line(0), rt.crypt_line("crypt_rn", 0, phrase, seen[dig][1]),
+                                                rt.crypt_line("crypt_rn", 0, phrase, s)]))
+        else:
+            seen[dig] = (par, s)
+    return acc
+
+
 def run(tier):
     run_ = common.Run(PID, tier, "exploration")
-    rt.prepare([FL])
+    rt.prepare([FL, "opt"])
     jobs = make_jobs(run_.seed, tier)
     for acc in pool.pmap(do_job, jobs):
         run_.merge(acc)
     for acc in pool.pmap(do_sweep, make_sweep_jobs(run_.seed, tier)):
         run_.merge(acc)
+    for acc in pool.pmap(do_cost_grid, [(m, run_.seed) for m in ("yescrypt", "gost_yescrypt", "scrypt")]):
+        run_.merge(acc)
     a = run_.acc
     cov = {
+        "cost_grid_hashes": int(a.n.get("cost_grid_hashes", 0)),
         "rule": "base = (method, accepted setting, random phrase of 511 and of a shorter length); perturbations: bit "
                 "flip, byte replacement and truncation at each chosen byte position of the documented significant "
                 "window (8 descrypt, 128 bigcrypt, 72 bcrypt, all otherwise), extension, and replacement of every "
